@@ -97,7 +97,7 @@ func renderSecdb(rel, repo string, pkgs []secdbPkg) []byte {
 
 func runSecdb(r *hx.Run, g *gen, cfg hx.Config) {
 	var m alpine.Matcher
-	for it, n := 0, cfg.N(800, 6000); it < n && !r.Stop(); it++ {
+	for it, n := 0, cfg.N(1500, 12000); it < n && !r.Stop(); it++ {
 		edge := g.r.Chance(1, 8)
 		maj, min := 3, 3+g.r.Intn(18)
 		repo := g.r.Pick("main", "community")
@@ -261,7 +261,7 @@ func runDebian(r *hx.Run, g *gen, cfg hx.Config) {
 	}
 	p := debian.ParserForC14()
 	var m debian.Matcher
-	for it, n := 0, cfg.N(800, 6000); it < n && !r.Stop(); it++ {
+	for it, n := 0, cfg.N(1500, 12000); it < n && !r.Stop(); it++ {
 		data := g.debian()
 		feed := renderDebian(data)
 		l := (&line{}).tok("debian").n(len(debKnown))
@@ -398,7 +398,7 @@ func runAws(r *hx.Run, g *gen, cfg hx.Config) {
 		rel  aws.Release
 		dist string
 	}{{aws.AmazonLinux1, "amzn|2018.03|"}, {aws.AmazonLinux2, "amzn|2|"}, {aws.AmazonLinux2023, "amzn|2023|"}}
-	for it, n := 0, cfg.N(800, 6000); it < n && !r.Stop(); it++ {
+	for it, n := 0, cfg.N(1500, 12000); it < n && !r.Stop(); it++ {
 		rel := rels[g.r.Intn(len(rels))]
 		u, _ := aws.NewUpdater(rel.rel)
 		ups := g.alas()
